@@ -149,6 +149,10 @@ def gen_ln(rng, tier, b, p):
         s, e = gen_x_generic(rng, tier, b, p)
     if s == 0:
         s = 1
+    # scaling by 2^floor(log2 x) is quadratic in the exponent unless B = 2 (a 10^6 exponent takes minutes:
+    # termination is C16's subject); keep the huge exponents for base 2
+    if b != 2:
+        e = max(-5200, min(5200, e))
     sg = 1
     if rng.chance(1, 60):
         sg = -1
